@@ -642,16 +642,21 @@ ELEMENTS = [
                                                                  "parallelizable": False}),
     ("ExperimentInstance(name='e3', options={'o': 'v'})", {"name": "e3", "args": [], "options": {"o": "v"},
                                                            "parallelizable": False}),
+    # explicit None / non-list values are handed to run_experiment unchanged: rejected exactly when the expansion is
+    ("ExperimentInstance(name='e6', options=None)", {"name": "e6", "args": [], "options": None, "parallelizable": False}),
+    ("ExperimentInstance(name='e7', args=None)", {"name": "e7", "args": None, "options": {}, "parallelizable": False}),
     ("('e9', [], {}, False)", None),
     ("'e9'", None),
 ]
+# how the instance sequence is handed over: `experiments` is documented as an iterable, so a one-shot iterable counts
+SEQ_FORMS = [("list", "[%s]"), ("generator", "(e_ for e_ in [%s])")]
 DEPS_VARIANTS = [("omitted", None, None), ("None", "None", None), ("[]", "[]", []), ("[':x']", "[':x']", [":x"]),
                  ("['//a/b:y', ':x']", "['//a/b:y', ':x']", ["//a/b:y", ":x"])]
 CHAIN_VARIANTS = [("omitted", None, False), ("False", "False", False), ("True", "True", True)]
 
 
-def _group_source(elems, chain_src, deps_src):
-    parts = ["name=%r" % GROUP_NAME, "run=%r" % RUN, "experiments=[%s]" % ", ".join(e[0] for e in elems)]
+def _group_source(elems, chain_src, deps_src, seq_form="[%s]"):
+    parts = ["name=%r" % GROUP_NAME, "run=%r" % RUN, "experiments=" + seq_form % ", ".join(e[0] for e in elems)]
     if chain_src is not None:
         parts.append("chain_experiments=%s" % chain_src)
     if deps_src is not None:
@@ -692,12 +697,12 @@ def _group_worker(job):
         n = -1
         for k in range(0, max_len + 1):
             for elems in itertools.product(ELEMENTS, repeat=k):
-                for (chain_label, chain_src, chain), (deps_label, deps_src, deps) in itertools.product(
-                        CHAIN_VARIANTS, DEPS_VARIANTS):
+                for (chain_label, chain_src, chain), (deps_label, deps_src, deps), (_form_label, seq_form) in itertools.product(
+                        CHAIN_VARIANTS, DEPS_VARIANTS, SEQ_FORMS if k >= 1 else SEQ_FORMS[:1]):
                     n += 1
                     if n % n_shards != shard:
                         continue
-                    src_group = _group_source(elems, chain_src, deps_src)
+                    src_group = _group_source(elems, chain_src, deps_src, seq_form)
                     inp = {"cond_file": src_group}
                     all_instances = all(spec is not None for _, spec in elems)
 
@@ -860,7 +865,7 @@ def run(tier, seed):
                    "task_types/stdlib/run_experiment_group.py::run_experiment_group (through TaskLoader.parse_cond_file)",
                    "all experiment lists of length 0..%d over %d element kinds (default instance, two instances with "
                    "args/options/parallelizable, duplicate name, name equal to the group's, ill-typed args, invalid "
-                   "name, plain tuple, string) x chain_experiments {omitted, False, True} x deps {omitted, None, [], "
+                   "name, explicit None for options / args, plain tuple, string) x sequence given as a list or as a one-shot generator x chain_experiments {omitted, False, True} x deps {omitted, None, [], "
                    "[':x'], ['//a/b:y', ':x']}; compared with the explicit expansion parsed by the same loader"
                    % (max_len, len(ELEMENTS)), True,
                    "distinct COND files; non-trivial = >= 2 elements, all of them ExperimentInstances", wall_grp),
